@@ -9,7 +9,7 @@ RULE = ("cases = (encoded array, index) for every array of length 1..L over {0,1
         "oracle = the same index applied to the dense array; non-trivial = the array has at least two runs and the result is non-empty")
 ASSUMPTIONS = ["oracle: numpy indexing of the dense array; values only", "out-of-range integers are outside the statement and not issued",
                "results that are run-length arrays must also satisfy the constructor invariant (C14)"]
-REQUIRED_FEATURES = ["negative_int", "bound_beyond_end", "negative_step", "empty_result", "rl_mask", "rl_mask_not_canonical", "dense_mask", "list_of_bools_mask", "small_index_dtype", "window_pair", "list_with_repeats", "close_float_values",
+REQUIRED_FEATURES = ["negative_int", "bound_beyond_end", "negative_step", "empty_result", "rl_mask", "rl_mask_not_canonical", "dense_mask", "list_of_bools_mask", "small_index_dtype", "slice_of_empty_or_single_result", "window_pair", "list_with_repeats", "close_float_values",
                      "step_larger_than_run"]
 BOUNDS = {"quick": "all arrays over {0,1,2} of length 1..4 and those of length 5 starting with 0 x {every int in [-L,L-1]; every list of length<=2; every dense and run-length mask; every slice with "
                    "start,stop in {None} u [-(L+2),L+2] and step in {None,+-1,+-2,+-3,+-4}; every vector of 1-2 windows}; list-of-bools masks; close-float arrays; two 40-element arrays; 100- and 200-element arrays indexed in int8 / uint8 / int16 / int32",
@@ -131,6 +131,15 @@ def check(case, acc):
         exp = dense_obs(e, dt=False)
         f = lambda: _rla_obs(r[s], joined=(idx[3] not in (None, 1)))
         f2 = None
+        if len(e) == 0 or len(e) == 1:
+            # the result itself sliced again (an array with no run / one element is a receiver like any other)
+            acc.feature("slice_of_empty_or_single_result")
+            for s2 in (slice(None), slice(None, None, 2), slice(-5, 50, -3)):
+                o2 = attempt(lambda: _rla_obs(r[s][s2], joined=False))
+                acc.trans()
+                if o2 != dense_obs(e[s2], dt=False):
+                    acc.fail("slice-of-slice-wrong", (idx, [s2.start, s2.stop, s2.step], dense_obs(e[s2], dt=False)), o2)
+                    break
     elif kind in ("arrdt", "intdt"):
         acc.feature("small_index_dtype")
         if kind == "arrdt":
